@@ -11,6 +11,7 @@ import PenneModel.Cli.Decide
 import PenneModel.Decls.Imports
 import PenneModel.Types.ValueType
 import PenneModel.Decls.Order
+import PenneModel.Types.Ops
 /-
   Model driver: one request per line on stdin (`OP<TAB>payload`), one answer per line on stdout.
   Only model files are imported (no Mathlib, no proof files), so this links as a native executable.
@@ -190,6 +191,26 @@ def handle (op payload : String) : String :=
         "cyclical=" ++ ",".intercalate ((Order.cyclical edges).map toString) ++ " n=" ++ toString ids.length ++ " hascycle=" ++
           (if Order.hasCycle edges then "1" else "0")
       | _, _ => "bad-request"
+    | _ => "bad-request"
+  | "optype" =>
+    -- (bin op l r) | (un op t) | (cast s d)
+    match Sexp.parse payload with
+    | some (.list [.atom "bin", .atom op, .atom l, .atom r]) =>
+      match Types.opOf op, Types.primOf l, Types.primOf r with
+      | some op, some l, some r => toString (Types.binaryVerdict op (.prim l) (.prim r))
+      | _, _, _ => "bad-request"
+    | some (.list [.atom "un", .atom op, .atom t]) =>
+      match Types.opOf op, Types.primOf t with
+      | some op, some t => toString (Types.unaryVerdict op (.prim t))
+      | _, _ => "bad-request"
+    | some (.list [.atom "cast", .atom s, .atom d]) =>
+      match Types.primOf s, Types.primOf d with
+      | some s, some d => toString (Types.castVerdict s d)
+      | _, _ => "bad-request"
+    | some (.list [.atom "ptr", .atom op]) =>
+      match Types.opOf op with
+      | some op => toString (Types.binaryVerdict op .pointer .pointer)
+      | none => "bad-request"
     | _ => "bad-request"
   | "legal" =>
     match Sexp.parse payload with
